@@ -74,6 +74,30 @@ def function_level(cls_name):
                 summary=f'remove_results([t1 (no result), t0]) left {bad} in results_map' if bad else 'post-condition holds natively')
 
 
+def requested_and_needed(kind='serial'):
+    """A task that is requested AND is a direct dependency of another requested task: capturing its result for the
+    caller must not release it before the dependent has run (and the dependent must get the right value)."""
+    import labtech
+    from replay.universe import A, expected_value
+    logging.getLogger('labtech').setLevel(logging.CRITICAL)
+    load = A('load')
+    clean = A('clean', (load,))
+    report = A('report', (clean, load))
+    tasks = [load, clean, report]
+    with tempfile.TemporaryDirectory() as d:
+        lab = labtech.Lab(storage=d, continue_on_failure=True, runner_backend=kind, max_workers=2)
+        try:
+            res = lab.run_tasks(tasks, disable_progress=True, disable_top=True)
+        except BaseException as ex:   # noqa
+            return dict(reproduced=True, level='api', backend=kind, summary=f'run_tasks([load, clean(load), report(clean, load)]) raised {type(ex).__name__}: {str(ex)[:150]}')
+    for t in tasks:
+        if res.get(t) != expected_value(t):
+            return dict(reproduced=True, level='api', backend=kind,
+                        summary=f'{kind}: every stage of a pipeline was requested; {t} came back as {res.get(t)!r} instead of {expected_value(t)!r} '
+                                f'(the result of a requested task was released before its dependent ran)')
+    return dict(reproduced=False)
+
+
 def main():
     ap = argparse.ArgumentParser()
     ap.add_argument('--obligation', default='')
@@ -81,7 +105,12 @@ def main():
     a = ap.parse_args()
     res = dict(reproduced=False)
     try:
-        if 'remove_results' in a.obligation or 'complete_task' in a.obligation or 'run' in a.obligation or not a.obligation:
+        if 'get_result' in a.obligation:
+            for kind in ('serial', 'fork'):
+                res = requested_and_needed(kind)
+                if res.get('reproduced'):
+                    break
+        elif 'remove_results' in a.obligation or 'complete_task' in a.obligation or 'run' in a.obligation or not a.obligation:
             kind = 'fork' if 'ProcessRunner' in a.obligation else 'serial'
             res = api_level(kind)
             if not res['reproduced'] and 'remove_results' in a.obligation:
